@@ -30,6 +30,14 @@ type Options struct {
 	MaxSteps   int
 	MaxSimTime time.Duration
 	KeepTrace  bool // keep the full event list (replay / samples)
+	KeepIO     bool // record the list of I/O points (pilot run of a fault enumeration)
+	FaultAt    *FaultSpec
+}
+
+// FaultSpec arms one fault at the Index-th I/O point of the run (fault enumeration).
+type FaultSpec struct {
+	Index int    `json:"index"`
+	Kind  string `json:"kind"`
 }
 
 // Violation is one oracle verdict.
@@ -64,6 +72,8 @@ type Result struct {
 	Overrun    int
 	LibEvents  []string // panics, handler aborts, ...
 	Plan       interface{}
+	IOPoints   []string // pilot runs: description of every I/O point, in order
+	FaultFired bool
 }
 
 type opKind int
@@ -136,6 +146,13 @@ type Sim struct {
 	exitSeq  int64
 	anon     int
 	abort    string
+
+	ioCount int
+	// OnFault performs the armed fault (set by the scenario); ref is the *Conn or *Pipe of the I/O point.
+	OnFault func(kind string, ref interface{})
+	// FaultTime is the simulated time at which the armed fault fired (valid when FaultFired()).
+	FaultTime time.Duration
+	FaultSite string
 
 	// Net is the simulated network of this run.
 	Net *Net
@@ -303,6 +320,42 @@ func (s *Sim) Yield(site string) {
 func (s *Sim) Point(site string, weights []int) int {
 	return s.park(s.currentTask(), &parkOp{kind: opPoint, site: site, weights: weights})
 }
+
+// IOPoint is an interleaving point that belongs to simulated I/O (network or pipe).  I/O points are
+// numbered in execution order; an armed fault (Options.FaultAt) fires when its index comes up, in
+// the task that is about to perform the I/O, before the I/O happens.
+func (s *Sim) IOPoint(site string, weights []int, ref interface{}) int {
+	d := s.park(s.currentTask(), &parkOp{kind: opPoint, site: site, weights: weights})
+	s.mu.Lock()
+	idx := s.ioCount
+	s.ioCount++
+	if s.opts.KeepIO {
+		s.res.IOPoints = append(s.res.IOPoints, site)
+	}
+	fire := s.opts.FaultAt != nil && s.opts.FaultAt.Index == idx && !s.res.FaultFired
+	if fire {
+		s.res.FaultFired = true
+		s.FaultTime = s.Now()
+		s.FaultSite = site
+		s.res.Faults["enum."+s.opts.FaultAt.Kind]++
+	}
+	cb := s.OnFault
+	s.mu.Unlock()
+	if fire && cb != nil {
+		cb(s.opts.FaultAt.Kind, ref)
+	}
+	return d
+}
+
+// FaultFired reports whether the armed fault of this run has fired.
+func (s *Sim) FaultFired() bool {
+	s.mu.Lock()
+	defer s.mu.Unlock()
+	return s.res.FaultFired
+}
+
+// ArmedFault returns the fault armed for this run (nil if none).
+func (s *Sim) ArmedFault() *FaultSpec { return s.opts.FaultAt }
 
 // Sleep lets simulated time pass for the calling task.
 func (s *Sim) Sleep(d time.Duration) {
